@@ -117,3 +117,91 @@ Proof.
   { subst n. change (4294967295 - Z.lor 1073741824 536870912) with 2684354559. bits. reflexivity. }
   destruct (Z.eqb_spec n z) as [E|E]; [rewrite <- E at 1|]; exact Hn.
 Qed.
+
+(* ------------------------------------------------------------------ one phase of invoke2: what it can do *)
+Ltac pick c :=
+  match c with
+  | ?a && _ => pick a
+  | ?a || _ => pick a
+  | negb ?a => pick a
+  | queue_eqb ?a ?b => first [is_var a; destruct a | is_var b; destruct b]
+  | match ?a with _ => _ end => pick a
+  | if ?a then _ else _ => pick a
+  | ?v => is_var v; destruct v
+  end.
+Ltac split_ifs H :=
+  repeat (cbn in H;
+          match type of H with
+          | context [if ?c then _ else _] => pick c
+          | context [match ?c with RNone => _ | _ => _ end] => pick c
+          end).
+Ltac open_i i :=
+  destruct i as [s0 pc dqf r0 av];
+  destruct s0 as [f inst w ar nd he hc hr pe kr]; destruct f as [fc fw fn fd fr];
+  destruct dqf as [dc dw dn dd dr].
+Ltac unf H :=
+  unfold phase, install, refs_unregister, finalize, cancel_callout, cont, m_finalize, m_needs_event_loop, refs_needs_rearm,
+    needs_rearm_du, registered, canc_or_rel, dkq, retq_of in H.
+
+Ltac dgoal := repeat match goal with |- context [?v] => is_var v; match type of v with bool => destruct v end end.
+Ltac dhyp := repeat match goal with
+  | H : context [?v || _] |- _ => is_var v; destruct v
+  | H : context [_ || ?v] |- _ => is_var v; destruct v
+  | H : context [?v && _] |- _ => is_var v; destruct v
+  | H : context [_ && ?v] |- _ => is_var v; destruct v
+  end.
+Ltac fin := repeat split; intros; try discriminate; try congruence; try tauto; try (dgoal; dhyp; cbn in *; intuition (try discriminate; try congruence)).
+
+Lemma phase_Pinv k q o i : Pinv k (i_src i) (i_pc i) -> Pinv k (res_src (phase k q o i)) (res_pc (phase k q o i)).
+Proof.
+  intros HS. destruct (phase k q o i) eqn:H; cbn [res_src res_pc].
+  all: open_i i; destruct k as [kt kd kre]; destruct o as [o1 o2 o3 o4 o5 o6 o7 o8]; unf H; destruct pc.
+  all: split_ifs H.
+  all: try discriminate.
+  all: first [injection H as <- <- | injection H as <- <- <-]; unfold Pinv, Sinv, registered, custom in *; cbn in *; fin.
+Qed.
+
+(* structural facts about one phase: where the callouts can start, what they need, what never changes *)
+Lemma phase_facts k q o i :
+  let p := phase k q o i in let s := i_src i in let s' := res_src p in let a := res_acts p in
+  (h_ca s = false -> h_ca s' = false) /\
+  (canceled (fl s') = canceled (fl s) /\ released (fl s') = released (fl s) /\ (deleted (fl s) = true -> deleted (fl s') = true)) /\
+  (count AChBegin a = 0 \/
+   (count AChBegin a = 1 /\ h_ca s = true /\ h_ca s' = false /\ canceled (fl s) = true /\
+    ((i_pc i = OP4 /\ q = QTarget /\ deleted (i_dqf i) = true) \/ (i_pc i = OCD2 /\ deleted (fl s) = true)))) /\
+  (count AEhBegin a = 0 \/ (count AEhBegin a = 1 /\ i_pc i = OLatch /\ h_ev s = true)) /\
+  (res_pc p = OLatch -> i_pc i = OP1 /\ q = QTarget /\ canceled (fl s) = false /\ released (fl s) = false /\ pending s = true) /\
+  (deleted (fl s') = deleted (fl s) \/ (deleted (fl s) = false /\ existsb is_fin a = true)) /\
+  (deleted (res_dqf' p) = true -> deleted (i_dqf i) = true \/ deleted (fl s) = true) /\
+  (count AChDispose a = 0 \/ (count AChDispose a = 1 /\ h_ca s = true /\ h_ca s' = false /\ canceled (fl s) = false)).
+Proof.
+  cbv zeta. destruct (phase k q o i) eqn:H; cbn [res_src res_pc res_acts res_dqf'].
+  all: open_i i; destruct k as [kt kd kre]; destruct o as [o1 o2 o3 o4 o5 o6 o7 o8]; unf H; destruct pc.
+  all: split_ifs H.
+  all: try discriminate.
+  all: first [injection H as <- <- | injection H as <- <- <-]; unfold registered; cbn.
+  all: repeat split; intros; try discriminate; try congruence; try tauto; auto.
+  all: try (left; reflexivity).
+  all: try (right; repeat split; try reflexivity; try congruence; auto; fail).
+  all: try (right; repeat split; try reflexivity; try congruence; auto; left; repeat split; auto; fail).
+  all: try (right; repeat split; try reflexivity; try congruence; auto; right; repeat split; auto; fail).
+  all: try (left; congruence).
+  all: try (right; congruence).
+  all: try (destruct fd; cbn; auto; fail).
+Qed.
+
+(* convergence: when _dispatch_source_wakeup has nothing left to ask for on a cancelled source, the source is in the one
+   final state, or it is parked waiting for the kernel's delete event (DSF_NEEDS_EVENT) *)
+Lemma wakeup_final k s :
+  Sinv k s -> canceled (fl s) = true -> (forall o, wakeup_target k o false false s = RNone) ->
+  (deleted (fl s) = true /\ waiter (fl s) = false /\ needs_event (fl s) = false /\ h_ev s = false /\ h_ca s = false /\
+   h_reg s = false /\ kreg s = false /\ installed s = true /\ (custom k = false -> registered s = false)) \/
+  (needs_event (fl s) = true /\ deleted (fl s) = false).
+Proof.
+  intros HS Hc Hw. specialize (Hw (mkO false false false false false false false false)).
+  destruct s as [f inst w ar nd he hc hr pe kr]; destruct f as [fc fw fn fd fr]; destruct k as [kt kd kre].
+  cbn in Hc. subst fc. unfold wakeup_target, canc_or_rel, refs_needs_rearm, needs_rearm_du, registered, dkq, retq_of in Hw.
+  unfold Sinv, registered, custom in HS. cbn in *.
+  destruct inst, hr, nd, fd, fn, kt, kd, ar, he, hc; cbn in *; try discriminate; try (right; split; reflexivity);
+    try (left; intuition congruence); try (right; intuition congruence).
+Qed.
